@@ -23,7 +23,11 @@
 
 #include <pika/execution.hpp>
 
+#include <atomic>
 #include <csignal>
+#include <cstring>
+#include <signal.h>
+#include <sys/mman.h>
 #include <exception>
 #include <functional>
 #include <memory>
@@ -169,6 +173,156 @@ static void on_abort(int)
     _exit(0);
 }
 
+// ---------------------------------------------------------------- LIFETIME MODE (life=1)
+// The default cases leak every sender and operation state, so nothing is ever released.  With life=1 the
+// shared state of split / split_tuple / ensure_started is allocated by a guard allocator (one mmap per
+// allocation; deallocate turns the pages PROT_NONE), every consumer owns its own sender object, connects it
+// into a self-deleting operation state (what start_detached does) or discards it unconnected, and the
+// adaptor's handle is destroyed before the threads start.  Whoever touches the shared state after its last
+// reference was released faults; the SIGSEGV handler reports it as `end crash`.
+struct guard_region
+{
+    void* p;
+    std::size_t n;
+};
+static guard_region g_guard[64];
+static std::atomic<int> g_nguard{0};
+static std::atomic<int> g_released{0};
+static guard_region g_opguard[64];    // operation states of self-deleting consumers (see below)
+static std::atomic<int> g_nopguard{0};
+
+template <class T>
+struct guard_alloc
+{
+    using value_type = T;
+    guard_alloc() = default;
+    template <class U>
+    guard_alloc(guard_alloc<U> const&) noexcept
+    {
+    }
+    T* allocate(std::size_t n)
+    {
+        std::size_t bytes = ((n * sizeof(T) + 4095) / 4096) * 4096;
+        void* p = mmap(nullptr, bytes, PROT_READ | PROT_WRITE, MAP_PRIVATE | MAP_ANONYMOUS, -1, 0);
+        if (p == MAP_FAILED) throw std::bad_alloc();
+        int i = g_nguard.fetch_add(1);
+        if (i < 64) g_guard[i] = {p, bytes};
+        return static_cast<T*>(p);
+    }
+    void deallocate(T* p, std::size_t n) noexcept
+    {
+        std::size_t bytes = ((n * sizeof(T) + 4095) / 4096) * 4096;
+        mprotect(p, bytes, PROT_NONE);    // never unmapped: the address stays poisoned for the rest of the case
+        g_released.fetch_add(1);
+    }
+    template <class U>
+    bool operator==(guard_alloc<U> const&) const noexcept
+    {
+        return true;
+    }
+    template <class U>
+    bool operator!=(guard_alloc<U> const&) const noexcept
+    {
+        return false;
+    }
+};
+
+static void on_segv(int, siginfo_t* si, void*)
+{
+    bool guarded = false;
+    int n = g_nguard.load();
+    for (int i = 0; i < n && i < 64; ++i)
+        if (si->si_addr >= g_guard[i].p && si->si_addr < static_cast<char*>(g_guard[i].p) + g_guard[i].n) guarded = true;
+    n = g_nopguard.load();
+    for (int i = 0; i < n && i < 64; ++i)
+        if (si->si_addr >= g_opguard[i].p && si->si_addr < static_cast<char*>(g_opguard[i].p) + g_opguard[i].n) guarded = true;
+    if (g_ctl != nullptr)
+        for (auto const& l : g_ctl->log) std::puts(l.c_str());
+    std::puts(guarded ? "0 life.touch-after-release 0 0 0" : "0 life.segv 0 0 0");
+    std::puts("end crash");
+    std::fflush(stdout);
+    _exit(0);
+}
+
+// Operation states of self-deleting consumers live in guarded memory too (one mmap each, PROT_NONE once
+// deleted): adaptor code that touches a consumer's operation state - or, for when_all with life=1, the
+// when_all operation state - after the completion call that destroyed it faults like a touch of the shared state.
+static void* op_guard_new(std::size_t n)
+{
+    std::size_t bytes = ((n + 4095) / 4096) * 4096;
+    void* p = mmap(nullptr, bytes, PROT_READ | PROT_WRITE, MAP_PRIVATE | MAP_ANONYMOUS, -1, 0);
+    if (p == MAP_FAILED) throw std::bad_alloc();
+    int i = g_nopguard.fetch_add(1);
+    if (i < 64) g_opguard[i] = {p, bytes};
+    return p;
+}
+static void op_guard_delete(void* p, std::size_t n) noexcept
+{
+    mprotect(p, ((n + 4095) / 4096) * 4096, PROT_NONE);
+}
+
+template <class S>
+struct self_deleting_op;
+template <class S>
+struct self_deleting_recv
+{
+    PIKA_STDEXEC_RECEIVER_CONCEPT
+    self_deleting_op<S>* h;
+    int k;
+    template <class... Ts>
+    void set_value(Ts&&... ts) && noexcept
+    {
+        long long enc = 0, mul = 1;
+        ((enc += (long long) ts * mul, mul *= 16), ...);
+        auto* hh = h;
+        nt("rcv.value", nullptr, k, enc);
+        delete hh;
+    }
+    template <class E>
+    void set_error(E&& e) && noexcept
+    {
+        auto* hh = h;
+        if constexpr (std::is_same_v<std::decay_t<E>, std::exception_ptr>) nt("rcv.error", nullptr, k, code_of(e));
+        else
+            nt("rcv.error", nullptr, k, -2);
+        delete hh;
+    }
+    void set_stopped() && noexcept
+    {
+        auto* hh = h;
+        nt("rcv.stopped", nullptr, k, 0);
+        delete hh;
+    }
+    constexpr ex::empty_env get_env() const& noexcept { return {}; }
+};
+template <class S>
+struct self_deleting_op
+{
+    std::decay_t<decltype(ex::connect(std::declval<S>(), std::declval<self_deleting_recv<S>>()))> op;
+    self_deleting_op(S&& s, int k)
+      : op(ex::connect(std::move(s), self_deleting_recv<S>{this, k}))
+    {
+    }
+    static void* operator new(std::size_t n) { return op_guard_new(n); }
+    static void operator delete(void* p, std::size_t n) noexcept { op_guard_delete(p, n); }
+};
+template <class S>
+static void start_self_deleting(S&& s, int k)
+{
+    auto* h = new self_deleting_op<std::decay_t<S>>(std::move(s), k);
+    ex::start(h->op);
+}
+
+// Reference count of the shared state once the set-up (construction of the adaptor, copies for the consumers,
+// destruction of the handle) is through: first line of the log, `0 life.init <obj> <count> 0`.  The hooks
+// sh.ref / sh.unref / sh.free log every later change, so the driver's ownership model starts from this count.
+template <class State>
+static void note_init(controller* ctl, State* st)
+{
+    ctl->name_obj(st);
+    ctl->logf(0, "life.init", ctl->obj(st), static_cast<long>(st->reference_count), 0);
+}
+
 // ---------------------------------------------------------------- CASES
 static int channel_of(std::string const& name)    // complete_<ch>
 {
@@ -200,6 +354,27 @@ static std::function<void()> make_when_all(std::vector<trigger*> const& trg, std
     return [op] { ex::start(*op); };
 }
 
+// when_all with life=1: the when_all operation state is self-deleting (destroyed inside the completion call of
+// the downstream receiver, by whichever predecessor thread finishes last) and lives in guarded memory
+template <std::size_t... Is>
+static std::function<void()> make_when_all_life(std::vector<trigger*> const& trg, std::index_sequence<Is...>)
+{
+    auto snd = ex::when_all(manual_sender<int>{trg[Is]}...);
+    using S = decltype(snd);
+    auto* h = new self_deleting_op<S>(std::move(snd), 0);
+    return [h] { ex::start(h->op); };
+}
+
+static void install_segv_handler()
+{
+    struct sigaction sa;
+    std::memset(&sa, 0, sizeof(sa));
+    sa.sa_sigaction = on_segv;
+    sa.sa_flags = SA_SIGINFO;
+    sigaction(SIGSEGV, &sa, nullptr);
+    sigaction(SIGBUS, &sa, nullptr);
+}
+
 static void run_one(case_t const& c)
 {
     std::signal(SIGABRT, on_abort);
@@ -209,7 +384,7 @@ static void run_one(case_t const& c)
     std::string kind = c.gets("kind", "split");
 
     std::vector<trigger*> trg;
-    consume_fn consume;
+    consume_fn consume, discard;
     std::function<void()> start_wa;
 
     if (kind == "when_all")
@@ -218,7 +393,14 @@ static void run_one(case_t const& c)
         if (n < 2) n = 2;
         if (n > 4) n = 4;
         for (int i = 0; i < n; ++i) trg.push_back(new trigger{i});
-        if (n == 2) start_wa = make_when_all(trg, std::make_index_sequence<2>{});
+        if (c.geti("life", 0) != 0)
+        {
+            install_segv_handler();
+            if (n == 2) start_wa = make_when_all_life(trg, std::make_index_sequence<2>{});
+            else if (n == 3) start_wa = make_when_all_life(trg, std::make_index_sequence<3>{});
+            else start_wa = make_when_all_life(trg, std::make_index_sequence<4>{});
+        }
+        else if (n == 2) start_wa = make_when_all(trg, std::make_index_sequence<2>{});
         else if (n == 3) start_wa = make_when_all(trg, std::make_index_sequence<3>{});
         else start_wa = make_when_all(trg, std::make_index_sequence<4>{});
     }
@@ -226,10 +408,86 @@ static void run_one(case_t const& c)
     {
         trg.push_back(new trigger{0});
         trigger* t0 = trg[0];
-        if (kind == "split")
+        bool const life = c.geti("life", 0) != 0;
+        if (life)
+        {
+            struct sigaction sa;
+            std::memset(&sa, 0, sizeof(sa));
+            sa.sa_sigaction = on_segv;
+            sa.sa_flags = SA_SIGINFO;
+            sigaction(SIGSEGV, &sa, nullptr);
+            sigaction(SIGBUS, &sa, nullptr);
+        }
+        if (life && kind == "split")
+        {
+            using S = decltype(ex::split(manual_sender<int>{t0}, guard_alloc<int>{}));
+            auto* s = new auto(ex::split(manual_sender<int>{t0}, guard_alloc<int>{}));
+            ctl->name_obj(s->state.get());
+            // one copy per consumer index that the program consumes or discards (others would pin the state)
+            auto* mine = new std::vector<S*>(4, nullptr);
+            for (auto const& th : c.threads)
+                for (auto const& op : th)
+                    if ((op.name == "consume" || op.name == "discard") && !op.args.empty() &&
+                        (*mine)[std::size_t(op.args[0]) & 3] == nullptr)
+                        (*mine)[std::size_t(op.args[0]) & 3] = new S(*s);
+            auto* st0 = s->state.get();
+            delete s;    // the handle the user got is gone before anything starts
+            note_init(ctl, st0);
+            consume = [mine](int kk) {
+                S* x = (*mine)[std::size_t(kk) & 3];
+                (*mine)[std::size_t(kk) & 3] = nullptr;
+                if (x == nullptr) return;
+                start_self_deleting(std::move(*x), kk);
+                delete x;
+            };
+            discard = [mine](int kk) {
+                S* x = (*mine)[std::size_t(kk) & 3];
+                (*mine)[std::size_t(kk) & 3] = nullptr;
+                delete x;
+            };
+        }
+        else if (life && kind == "ensure_started")
+        {
+            auto* s = new auto(ex::ensure_started(manual_sender<int>{t0}, guard_alloc<int>{}));
+            ctl->name_obj(s->state.get());
+            note_init(ctl, s->state.get());
+            consume = [s](int kk) {
+                start_self_deleting(std::move(*s), kk);
+                delete s;
+            };
+            discard = [s](int) { delete s; };
+        }
+        else if (life && kind == "split_tuple")
+        {
+            auto* tup = new auto(ex::split_tuple(manual_sender<std::tuple<int, int>>{t0}, guard_alloc<int>{}));
+            ctl->name_obj(std::get<0>(*tup).state.get());
+            auto* e0 = new auto(std::get<0>(std::move(*tup)));
+            auto* e1 = new auto(std::get<1>(std::move(*tup)));
+            delete tup;
+            note_init(ctl, e0->state.get());
+            consume = [e0, e1](int kk) {
+                if (kk == 0)
+                {
+                    start_self_deleting(std::move(*e0), kk);
+                    delete e0;
+                }
+                else
+                {
+                    start_self_deleting(std::move(*e1), kk);
+                    delete e1;
+                }
+            };
+            discard = [e0, e1](int kk) {
+                if (kk == 0) delete e0;
+                else
+                    delete e1;
+            };
+        }
+        else if (kind == "split")
         {
             auto* s = new auto(ex::split(manual_sender<int>{t0}));
             ctl->name_obj(s->state.get());
+            note_init(ctl, s->state.get());
             consume = [s](int kk) {
                 auto copy = *s;
                 auto* op = new auto(ex::connect(std::move(copy), term_recv{kk}));
@@ -241,6 +499,7 @@ static void run_one(case_t const& c)
             // starts the leaf right here: the trigger is armed during setup
             auto* s = new auto(ex::ensure_started(manual_sender<int>{t0}));
             ctl->name_obj(s->state.get());
+            note_init(ctl, s->state.get());
             consume = [s](int kk) {
                 auto* op = new auto(ex::connect(std::move(*s), term_recv{kk}));
                 ex::start(*op);
@@ -250,6 +509,7 @@ static void run_one(case_t const& c)
         {
             auto* tup = new auto(ex::split_tuple(manual_sender<std::tuple<int, int>>{t0}));
             ctl->name_obj(std::get<0>(*tup).state.get());
+            note_init(ctl, std::get<0>(*tup).state.get());
             consume = [tup](int kk) {
                 if (kk == 0)
                 {
@@ -272,10 +532,11 @@ static void run_one(case_t const& c)
     }
 
     bool wa = kind == "when_all";
+    bool const life_mode = !wa && c.geti("life", 0) != 0;
     std::vector<std::function<void()>> bodies;
     for (int i = 0; i < k; ++i)
     {
-        bodies.push_back([=, &c, &trg, &consume, &start_wa] {
+        bodies.push_back([=, &c, &trg, &consume, &discard, &start_wa] {
             for (auto const& op : c.threads[i])
             {
                 int ch = channel_of(op.name);
@@ -299,6 +560,14 @@ static void run_one(case_t const& c)
                     consume(kk);
                     nt("ret", nullptr, kk, 0);
                 }
+                else if (op.name == "discard" && discard)
+                {
+                    // destroy consumer kk's sender without ever connecting it (life=1 only; not a model event)
+                    int kk = int(op.args.size() > 0 ? op.args[0] : 0);
+                    pt("inv.discard", nullptr, kk, 0);
+                    discard(kk);
+                    nt("ret.discard", nullptr, kk, 0);
+                }
                 else if (op.name == "start" && start_wa)
                 {
                     pt("inv.start", nullptr, 0, 0);
@@ -306,6 +575,9 @@ static void run_one(case_t const& c)
                     nt("ret", nullptr, 0, 0);
                 }
             }
+            // life=1: how many guarded shared states exist / were released when this thread is through
+            // (the last such note of the log is the final count)
+            if (life_mode) nt("life.rel", nullptr, g_released.load(), g_nguard.load());
         });
     }
     run_os_threads(*ctl, bodies);
